@@ -63,10 +63,20 @@ fn c04_run(ctx: &ShardCtx) -> ShardResult {
     })
 }
 
+fn c04_fuzz(ctx: &ShardCtx) -> ShardResult {
+    crate::engine::run_fuzz(ctx, "seq_target", "C04")
+}
+
+fn c08_fuzz(ctx: &ShardCtx) -> ShardResult {
+    crate::engine::run_fuzz(ctx, "seq_target", "C08")
+}
+
+const FUZZ_RULE: &str = "thorough tier only: libFuzzer (cargo-fuzz, AddressSanitizer) campaigns of 300000 executions each on a target that decodes bytes (arbitrary::Unstructured) into the same SeqCase type (all 12 storage configurations, dense and sparse pools) and runs the same interpreter and oracles, so silent heap corruption in the unsafe storage code becomes a crash; non-trivial as in the proptest part; counts come from the target";
+
 pub fn c04() -> Property {
     Property {
         id: "C04",
-        subs: vec![SubCheck {
+        subs: vec![SubCheck { name: "fuzz", shards: |t: Tier| t.pick(0, 4), run: c04_fuzz, replay: replay_seq, rule: FUZZ_RULE, exe_env: None }, SubCheck {
             name: "sequences",
             shards: |t: Tier| t.pick(8, 16),
             run: c04_run,
@@ -135,6 +145,7 @@ pub fn c08() -> Property {
                 rule: "world histories (hist.rs, mixed profile) with builders, lazy insert / insert_all / lazy builders (executed, or dropped with the world before maintain), entity deletion through all paths over 2..6 storages; same ledger invariant; non-trivial = overwrite/remove + death of an entity with >= 2 components + live components at world drop", exe_env: None
             },
             crate::props_join::c08_changeset_sub(),
+            SubCheck { name: "fuzz", shards: |t: Tier| t.pick(0, 4), run: c08_fuzz, replay: replay_seq, rule: FUZZ_RULE, exe_env: None },
         ],
         crash_is_violation: true,
         assumptions: &["the ledger (thread-local, serial + canary per value) observes every construction and destruction of component values"],
